@@ -93,14 +93,28 @@ ObsEv ==
   /\ PrintT(<<"OBSV", ToJson([case |-> Ev.case, with |-> Ev.with, ok |-> ObsAccepted(Ev)])>>)
   /\ UNCHANGED <<expect, cur, stage, written, exited>>
 
+\* no-leak family: one package of a multi-package run, judged by LAccept / LBase
+LObsAccepted(e) ==
+  LET w    == {<<e.writes[i][1], e.writes[i][2]>> : i \in 1..Len(e.writes)}
+      acc  == IF e.with THEN LAccept(w, e.pkg) ELSE {LBase}
+      imps == ToSet(e.imports)
+  IN /\ \E oc \in acc : oc.mocks = e.mocks /\ oc.req \subseteq imps /\ oc.forb \cap imps = {}
+     /\ e.built = TRUE
+LObsEv ==
+  /\ IsEvent("lobs") /\ exited
+  /\ Ev.file \in written
+  /\ PrintT(<<"OBSV", ToJson([case |-> Ev.case, with |-> Ev.with, ok |-> LObsAccepted(Ev)])>>)
+  /\ UNCHANGED <<expect, cur, stage, written, exited>>
+
 \* events of the run that carry nothing C13 speaks about
 OtherEv ==
   /\ l <= Len(Trace)
-  /\ Trace[l].ev \in {"InitBegin", "InitPkg", "InitEnd", "Parsed", "Select", "ResolveIter", "Resolved", "Generated", "Exists"}
+  /\ Trace[l].ev \in {"InitBegin", "InitPkg", "InitEnd", "Parsed", "Select", "ResolveIter", "Resolved", "Generated", "Exists",
+                      "Recursive", "Inject", "Exclude"}
   /\ l' = l + 1
   /\ UNCHANGED <<expect, cur, stage, written, exited>>
 
-TraceNext == RunEv \/ CollectEv \/ FileBeginEv \/ StageEv \/ WriteEv \/ ExitEv \/ ObsEv \/ OtherEv
+TraceNext == RunEv \/ CollectEv \/ FileBeginEv \/ StageEv \/ WriteEv \/ ExitEv \/ ObsEv \/ LObsEv \/ OtherEv
 TraceSpec == TraceInit /\ [][TraceNext]_tvars
 
 Consumed == TLCGet("stats").diameter - 1
